@@ -141,7 +141,7 @@ def _nodes(fam):
 
 
 def time_cases(tier):
-    mmax = 6 if tier == 'quick' else 9
+    mmax = 9  # both tiers: the time part is cheap
     out = []
     for nt in NODE_TYPES:
         for qt in QUAD_TYPES:
@@ -833,6 +833,7 @@ def run(rep, tier):
             'exhaustive': True,
             'parts': parts,
             'failing_members_by_group': counts,
+            'failing_signatures': [sig for r in sorted(results, key=lambda r: _size(r['case'])) for sig, _ in r['fails']][:300],
             'not_judged_raised_or_refused': [__import__('json').loads(s) for s in raised][:60],
             'not_judged_count': len(raised),
             'worst_err_over_tol': {k: {'ratio': v[0], 'case': v[1]} for k, v in sorted(worst.items())},
